@@ -107,6 +107,9 @@ func matches(m int, x, q *spec) bool {
 	r := true
 	if fixes[m][0] {
 		r = verif.And(r, x.sb == q.sb)
+		if x.st != 0 || q.st != 0 {
+			r = verif.And(r, tyOf(x.st) == tyOf(q.st))
+		}
 	}
 	if fixes[m][1] {
 		if x.pk != q.pk || (x.pk == 1 && !sameInstant(x.pa, q.pa)) {
@@ -119,6 +122,9 @@ func matches(m int, x, q *spec) bool {
 			return false
 		}
 		r = verif.And(r, x.ob == q.ob)
+		if x.ok == 0 && (x.ot != 0 || q.ot != 0) {
+			r = verif.And(r, tyOf(x.ot) == tyOf(q.ot))
+		}
 	}
 	return r
 }
@@ -239,5 +245,58 @@ func HarnessC02Siblings() {
 	}
 	for _, x := range t {
 		verif.Assert(verif.Implies(verif.And(present(x), matches(m, x, q)), anyEq(x, seen)), "C02/siblings/every-match-returned")
+	}
+}
+
+// C02 (node types): nodes are identified by type and id together.  Three
+// triples whose subjects and node objects draw their type from {/t, /u} and
+// their id from {a, b} (all solver variables) are added in one batch - so
+// consecutive triples may share an id and differ in type, or the reverse -,
+// one may be removed, and every lookup method with a symbolic argument is
+// compared with the scan.
+func HarnessC02Types() {
+	m := verif.Param("METHOD", -1)
+	if m < 0 {
+		m = verif.Choice("method", 10)
+	}
+	g, err := memory.NewStore().NewGraph(ctx, "?g")
+	verif.Assume(err == nil)
+	ty := func(b byte) bool { return verif.Or(b == 't', b == 'u') }
+	mk := func(name string) *spec {
+		sp := &spec{sb: verif.Byte(name + ".s"), pb: 'p', ob: verif.Byte(name + ".o"), st: verif.Byte(name + ".st"), ot: verif.Byte(name + ".ot")}
+		verif.Assume(verif.And(verif.And(alpha(sp.sb), alpha(sp.ob)), verif.And(ty(sp.st), ty(sp.ot))))
+		sp.t = sp.build()
+		return sp
+	}
+	n := 2 + verif.Choice("n", 2)
+	var all []*spec
+	for i := 0; i < n; i++ {
+		all = append(all, mk("t"))
+	}
+	verif.Assume(g.AddTriples(ctx, triples(all)) == nil)
+	present := make([]bool, n)
+	for i := range present {
+		present[i] = true
+	}
+	if verif.Choice("remove", 2) == 1 {
+		verif.Assume(g.RemoveTriples(ctx, triples(all[:1])) == nil)
+		for i, x := range all {
+			present[i] = !x.eq(all[0])
+		}
+	}
+	q := mk("q")
+	res, err, foreign := lookup(g, m, q, storage.DefaultLookup, all)
+	verif.Reach("looked-up")
+	verif.Assert(err == nil, "C02/types/lookup-succeeds")
+	verif.Assert(!foreign, "C02/types/result-derived-from-stored-triple")
+	for _, x := range res {
+		hit := false
+		for i, y := range all {
+			hit = verif.Or(hit, verif.And(present[i], verif.And(y.eq(x), matches(m, y, q))))
+		}
+		verif.Assert(hit, "C02/types/only-matches-returned")
+	}
+	for i, x := range all {
+		verif.Assert(verif.Implies(verif.And(present[i], matches(m, x, q)), anyEq(x, res)), "C02/types/every-match-returned")
 	}
 }
